@@ -121,8 +121,9 @@ def downstream(cfs):
             # a leave-one-out denominator that is zero in exact arithmetic shows up as a rounding
             # residue of the subtract-from-total shortcut (~1e-17): such bins are degenerate
             floor = 1e-9 * max(np.abs(den.data).max(), np.abs(den.samples).max(), 1e-300)
-            finite_d = np.all([np.isfinite(t.data) for t in terms.values()], axis=0) & (np.abs(den.data) > floor)
-            finite_s = np.all([np.isfinite(t.samples) for t in terms.values()], axis=0) & (np.abs(den.samples) > floor)
+            nd, ns_ = pl.normalisation_ok(cf)
+            finite_d = np.all([np.isfinite(t.data) for t in terms.values()], axis=0) & (np.abs(den.data) > floor) & nd
+            finite_s = np.all([np.isfinite(t.samples) for t in terms.values()], axis=0) & (np.abs(den.samples) > floor) & ns_
             nz = RedshiftData.from_corrfuncs(cf) if not cf.auto else None
         out.append({"data": np.asarray(s.data), "samples": np.asarray(s.samples), "cov": np.asarray(s.covariance), "scale_d": scale_d, "scale_s": scale_s, "fin_d": finite_d, "fin_s": finite_s, "nz": None if nz is None else np.asarray(nz.data), "dz": np.asarray(cf.binning.dz)})
     return out
